@@ -22,16 +22,14 @@ Definition mk_uni (t : cls) : uni :=
   {| is_letter := fun c => if c <? 128 then ascii_letter c else fst (lookup_cls t c);
      is_digit := fun c => if c <? 128 then ascii_digit c else snd (lookup_cls t c) |}.
 
-(* texts are compared by a pair of polynomial hashes over their code points
-   (the harness computes the same two sums) *)
-Definition P1 : N := 1000000007.
-Definition P2 : N := 998244353.
+(* texts are compared by a polynomial hash over their code points modulo 2^64
+   (the harness computes the same sum with uint64 arithmetic) *)
+Definition mask64 : N := 18446744073709551615.
 Definition hash_str (s : str) : N :=
-  fold_left (fun h c => (h * 257 + c + 1) mod P1) s 7 * P2 +
-  fold_left (fun h c => (h * 1000003 + c + 1) mod P2) s 11.
+  fold_left (fun h c => N.land (h * 1000003 + c + 1) mask64) s 1469598103934665603.
 
 Inductive case :=
-| CFile (t : cls) (c : root) (accepted : bool) (static dynamic : list N)
+| CFile (t : cls) (c : root) (accepted : bool) (static dynamic apps cursor : list N)
 | CDash (t : cls) (srcs : list str) (g : integ) (accepted : bool) (static dynamic apps : list N)
 | CClass (t : cls).
 
@@ -58,10 +56,19 @@ Definition check_texts (model static dynamic : list N) : bool :=
 Definition check (c : case) : bool :=
   gen_ok &&
   match c with
-  | CFile t c acc st dy =>
+  | CFile t c acc st dy apps cur =>
       match validate_fix (mk_uni t) G c with
-      | None => negb acc && is_nil st && is_nil dy
-      | Some c' => acc && check_texts (conn_texts (all_sql_file reserved ver c')) st dy
+      | None => negb acc && is_nil st && is_nil dy && is_nil apps && is_nil cur
+      | Some c' =>
+          let model := all_sql_file reserved ver c' in
+          acc && check_texts (conn_texts model) st dy
+          (* on the wire of the pool: NewTask's statement for every task when the load
+             succeeds (else for some of the references that resolve: map order), and
+             only constant cursor statements *)
+          && (if load_ok (sources c') (integs c')
+              then list_eqb N.eqb (sortN (pool_texts model)) (sortN apps)
+              else forallb (fun a => existsb (N.eqb a) (pool_texts model)) apps)
+          && forallb (fun x => existsb (N.eqb x) (map hash_str cursor_texts)) cur
       end
   | CDash t srcs g acc st dy apps =>
       if check_user_input (mk_uni t) (g_checked G) (root_of g)
